@@ -30,13 +30,28 @@ def check_C15(tier):
         # goroutines are the first callers (lazily initialised shared state is not pre-warmed)
         p0 = run([exe, "-phase", "seq", "-out", tra, "-stats", stats + ".seq"] + common_args, env=env, timeout=1500, ok_codes=(0, 66))
         p = run([exe, "-phase", "conc", "-rounds", "2" if tier == "quick" else "3", "-out", tr + ".conc", "-stats", stats] + common_args,
-                env=env, timeout=1500, ok_codes=(0, 66))
+                env=env, timeout=1500, ok_codes=(0, 66, 2))
+        crashed = None
+        if p.returncode == 2:
+            # the Go runtime killed the process: "fatal error: concurrent map writes" and the like are the
+            # runtime's own data-race detection; anything else is a failure of the driver
+            if "fatal error: concurrent map" in p.stderr or "WARNING: DATA RACE" in p.stderr:
+                crashed = [l for l in p.stderr.splitlines() if l.startswith("fatal error")][:1] or ["data race"]
+                open(tr + ".conc", "w").close()
+                json.dump({"events": 0, "concurrent_calls": 0}, open(stats, "w"))
+            else:
+                raise Infra("concdrive failed rc=2\n%s" % p.stderr[-3000:])
         with open(tr, "w") as f:
             f.write(open(tra).read())
             f.write(open(tr + ".conc").read())
         p.stderr = p0.stderr + p.stderr
         st = json.load(open(stats))
         n = st["events"] + json.load(open(stats + ".seq"))["events"]
+        if crashed:
+            with open(tr, "a") as f:
+                f.write(json.dumps({"ev": "race", "g": -1, "n": 0, "op": "", "res": "", "sigidx": -1, "text": (crashed[0] + "\n" + p.stderr[-3000:])}) + "\n")
+            n += 1
+            races += 1
         if "WARNING: DATA RACE" in p.stderr:
             reports = p.stderr.split("==================")
             reports = [x.strip() for x in reports if "DATA RACE" in x]
